@@ -42,7 +42,7 @@ def grammar():
     )
 
 
-JOIN_MENU = ['{ y > 0 }', '{ q }', '{ True }', '{ False }', '{ x > 1 }', '{ @A.x = y }']
+JOIN_MENU = ['{ y > 0 }', '{ q }', '{ True }', '{ False }', '{ x > 1 }', '{ @A.x = y }', '{ not x }', '{ p > 0 }', '{ len(s) > 0 }']  # the last three clash with the conventions of the universe: join must refuse, never hand out an ill-typed predicate
 
 
 def plan(tier):
